@@ -123,6 +123,22 @@ func orderInvariant(c *Check, r *Repo) {
 							bad = append(bad, fmt.Sprintf("%s: %s applies %s to code points", r.pos(x.Pos()), fd.Name.Name, x.Op))
 						}
 					}
+				case *ast.CallExpr:
+					// a particular code point handed on as an argument (a limit, an element) makes the
+					// result depend on where the values lie relative to it
+					for _, arg := range x.Args {
+						if v, ok := constOf(arg); ok && v != 0 && isRune(arg) {
+							sites++
+							bad = append(bad, fmt.Sprintf("%s: %s passes the constant code point %d to %s", r.pos(arg.Pos()), fd.Name.Name, v, types.ExprString(x.Fun)))
+						}
+					}
+				case *ast.AssignStmt:
+					for _, rhs := range x.Rhs {
+						if v, ok := constOf(rhs); ok && v != 0 && v != 1 && isRune(rhs) {
+							sites++
+							bad = append(bad, fmt.Sprintf("%s: %s assigns the constant code point %d", r.pos(rhs.Pos()), fd.Name.Name, v))
+						}
+					}
 				case *ast.SwitchStmt:
 					if x.Tag != nil && isRune(x.Tag) {
 						bad = append(bad, fmt.Sprintf("%s: %s switches on a code point", r.pos(x.Pos()), fd.Name.Name))
